@@ -20,6 +20,16 @@ def zone_names():
     return p.stdout.split()
 
 
+def zone_map():
+    code = ("import sys,io,contextlib,json\nsys.path.insert(0,%r)\nwith contextlib.redirect_stdout(io.StringIO()):\n  import hszinc\n"
+            "from hszinc import zoneinfo\nprint(json.dumps({k: str(v) for k, v in zoneinfo.get_tz_map().items()}))") % common.REPO
+    p = subprocess.run([sys.executable, '-c', code], capture_output=True, text=True)
+    try:
+        return json.loads(p.stdout.strip().split('\n')[-1])
+    except Exception:
+        return {}
+
+
 def run(chk):
     quick = chk.tier == 'quick'
     zones = zone_names()
@@ -40,9 +50,13 @@ def run(chk):
     pero = (len(offs) + oc - 1) // oc
     for i in range(0, len(offs), pero):
         jobs.append(dict(mode='fixed', name='fixed-offsets-%d..%d' % (offs[i], offs[min(len(offs), i + pero) - 1]), offsets=offs[i:i + pero]))
+    zmap = zone_map()
+    from .. import c17worker as _w
+    for first in _w.FIRST_OPS:
+        jobs.append(dict(mode='order', name='order-first-%s' % first, first=first, zmap=zmap))
     if chk.only:
         jobs = [j for j in jobs if chk.only in j['name']]
-    chk.bounds = dict(zones=len(zones), instants='every transition instant tabulated by pytz for every mapped zone, +- %r seconds, microseconds %r' % (deltas, micros),
+    chk.bounds = dict(zones=len(zones), process_histories='fresh processes whose first zone-related operation is a ZINC read, a JSON read, a name lookup, a write of one zone or a failed lookup; afterwards every mapped zone (values built from the zone database) x 2 instants x both formats', instants='every transition instant tabulated by pytz for every mapped zone, +- %r seconds, microseconds %r' % (deltas, micros),
                       fixed_offsets='%d whole-minute offsets in -14h..+14h x 10 local times (ordinary, skipped and ambiguous in US/EU/AU/Egypt/Lord Howe rules)' % len(offs),
                       formats=['zinc', 'json'])
     chk.assumptions = ['pytz\'s tables and calendar arithmetic, datetime.isoformat and iso8601.parse_date are library code: they are exercised, not re-derived',
@@ -100,7 +114,11 @@ def run(chk):
         chk.validated += res['n']
         if res['fails']:
             for f in res['fails'][:2]:
-                if j['mode'] == 'transitions':
+                if j['mode'] == 'order':
+                    body = ('sys.path.insert(0, %r)\nfrom vf import c17worker as w\nmsg = w.replay_order(hszinc, %r, %r, %r)\n'
+                            'if msg is not None:\n    VIOLATED(msg)\nHOLDS()\n') % (common.VERIF, j['first'], j['zmap'], f['zone'])
+                    what = 'zone %s: %s' % (f['zone'], f['what'])
+                elif j['mode'] == 'transitions':
                     body = ('sys.path.insert(0, %r)\nfrom vf import c17worker as w\nmsg = w.replay_transition(hszinc, %r, %r)\n'
                             'if msg is not None:\n    VIOLATED(msg)\nHOLDS()\n') % (common.VERIF, f['zone'], f['utc'])
                     what = 'zone %s at %s UTC: %s' % (f['zone'], f['utc'], f['what'])
